@@ -230,13 +230,13 @@ func hC07Vector(kind int) {
 
 func H_C07_text() {
 	src := NewBM25SearchIndex()
-	n := vChoose("docs", 3)
-	texts := []string{"tick tick fox dog", "Ｆｏｘ, DOG!"}
+	n := vChoose("docs", 4)
+	texts := []string{"tick tick fox dog", "Ｆｏｘ, DOG!", ""}
 	for i := 0; i < n; i++ {
 		src.Add(vIDs[i], texts[i])
 	}
 	removed := uint32(0)
-	if n == 2 && vChoose("remove", 2) == 1 {
+	if n >= 2 && vChoose("remove", 2) == 1 {
 		removed = vIDs[0]
 		src.Remove(removed)
 		vTag("pending-removal")
@@ -289,9 +289,11 @@ func H_C07_meta() {
 	n := vChoose("docs", 4)
 	docs = docs[:n]
 	src := vMetaIndex(docs)
-	if n == 3 && vChoose("remove", 2) == 1 {
-		vAssert(src.Remove(*NewMetadataNodeWithID(3, nil)) == nil, "remove-ok")
-		docs[1].live = false
+	if n == 3 {
+		if t := vChoose("remove", 4); t < 3 {
+			vAssert(src.Remove(*NewMetadataNodeWithID(docs[t].id, nil)) == nil, "remove-ok")
+			docs[t].live = false
+		}
 	}
 	dst := NewRoaringMetadataIndex()
 	if !vRoundTrip(src, dst) {
